@@ -638,3 +638,54 @@ Fixpoint build (s : site) : app :=
           (map (fun x => build (snd x)) subs)
           []
   end.
+
+(* ------------------------------------------------------------------------------------------ *)
+(* url rewriting (private/rewrite.h): ordered rules (regex, pattern with $N / $$, final flag)   *)
+(* ------------------------------------------------------------------------------------------ *)
+From Coq Require Import ZArith.
+(* the character after a dollar sign, as the C++ code turns it into an index: (signed char) c - '0' *)
+Definition sidx (d : N) : Z := if d <? 128 then (Z.of_N d - 48)%Z else (Z.of_N d - 256 - 48)%Z.
+
+(* url_rewriter::rule::rule: split the pattern at dollar signs.  cur = current chunk, reversed *)
+Fixpoint rwp (s : bytes) (cur : bytes) (parts : list bytes) (idx : list Z) : option (list bytes * list Z) :=
+  match s with
+  | [] => Some (rev (rev cur :: parts), rev idx)
+  | c :: t =>
+      if c =? 36 then
+        match t with
+        | [] => None                                           (* dollar at the very end: exception *)
+        | d :: t' => if d =? 36 then rwp t' (36 :: cur) parts idx
+                     else rwp t' [] (rev cur :: parts) (sidx d :: idx)
+        end
+      else rwp t (c :: cur) parts idx
+  end.
+Definition rw_parse (pat : bytes) : option (list bytes * list Z) := rwp pat [] [] [].
+
+Record rrule := RR { rr_pat : pattern; rr_parts : list bytes; rr_idx : list Z; rr_final : bool }.
+
+Definition grpz (gs : list bytes) (z : Z) : bytes := if (z <? 0)%Z then [] else grp gs (Z.to_nat z).
+
+(* rule::rewrite_once: pattern[0] m[index[0]] pattern[1] ... pattern.back() *)
+Fixpoint rw_fill (parts : list bytes) (idx : list Z) (gs : list bytes) : bytes :=
+  match parts with
+  | [] => []
+  | p :: ps => match idx with
+               | [] => p ++ rw_fill ps [] gs
+               | i :: idx' => p ++ grpz gs i ++ rw_fill ps idx' gs
+               end
+  end.
+Definition rw_once (r : rrule) (gs : list bytes) : bytes := rw_fill (rr_parts r) (rr_idx r) gs.
+
+(* url_rewriter::rewrite: every rule in order; a matching rule replaces the url; a final one stops *)
+Fixpoint rw_apply (rules : list rrule) (url : bytes) : bytes :=
+  match rules with
+  | [] => url
+  | r :: rest =>
+      match pat_match (rr_pat r) url with
+      | Some gs => let u := rw_once r gs in if rr_final r then u else rw_apply rest u
+      | None => rw_apply rest url
+      end
+  end.
+
+Definition mk_rule (p : pattern) (pat : bytes) (fin : bool) : option rrule :=
+  match rw_parse pat with Some (parts, idx) => Some (RR p parts idx fin) | None => None end.
